@@ -449,6 +449,37 @@ Example c14_nonvacuous_round5 :
                 d_mems := [] |} = Some 77.
 Proof. vm_compute. repeat split. Qed.
 
+(* ==================================================================== round 5, second pass: the text of every Windows reason *)
+(* Windows: whenever the name function [nm] (names of the two large tables winerror.h / ntstatus.h) and the translated small name
+   tables agree with membership, EVERY crash reason has a predicted Display string - also WinError ("{e:?}"), WinErrorWithFacility
+   ("{f:?} / {e:?}"), NtStatus and InPageError ("EXCEPTION_IN_PAGE_ERROR_{a:?} / " + the NTSTATUS name, else {:#010x}).  With
+   c14_linux_reason_string and c14_mac_reason_string: all 33 variants. *)
+Theorem c14_windows_reason_string : forall (lk : Z -> Z -> bool) (nm : Z -> Z -> option (list Z)),
+  (forall v, lk EN_WIN_EXC v = true -> name_of NAMES_ExceptionCodeWindows v <> None) ->
+  (forall v, lk EN_WIN_ERROR v = true -> nm EN_WIN_ERROR v <> None) ->
+  (forall v, lk EN_WIN_FACILITY v = true -> name_of NAMES_WinErrorFacilityWindows v <> None) ->
+  (forall v, lk EN_WIN_ACCESS v = true -> name_of NAMES_ExceptionCodeWindowsAccessType v <> None) ->
+  (forall v, lk EN_WIN_INPAGE v = true -> name_of NAMES_ExceptionCodeWindowsInPageErrorType v <> None) ->
+  forall c e, reason_string_nm nm (crash_reason lk OsWindows c e) <> None.
+Proof. exact windows_reason_string. Qed.
+Print Assumptions c14_windows_reason_string.
+
+(* the name function is consulted for those four families only: every other reason renders as reason_string does *)
+Theorem c14_reason_string_nm_conservative : forall nm r, reason_string r <> None -> reason_string_nm nm r = reason_string r.
+Proof. exact reason_string_nm_small. Qed.
+Print Assumptions c14_reason_string_nm_conservative.
+
+Example c14_nonvacuous_windows_strings :
+  let nm := fun en v => if (en =? EN_WIN_ERROR) && (v =? 5) then Some (zs "ERROR_ACCESS_DENIED")
+                        else if (en =? EN_WIN_NTSTATUS) && (v =? 3221225485) then Some (zs "STATUS_INVALID_PARAMETER") else None in
+  reason_string_nm nm (WindowsWinError, [5]) = Some (zs "ERROR_ACCESS_DENIED") /\
+  reason_string_nm nm (WindowsWinErrorWithFacility, [109; 5]) = Some (zs "FACILITY_VISUALCPP / ERROR_ACCESS_DENIED") /\
+  reason_string_nm nm (WindowsNtStatus, [3221225485]) = Some (zs "STATUS_INVALID_PARAMETER") /\
+  reason_string_nm nm (WindowsInPageError, [1; 3221225485]) = Some (zs "EXCEPTION_IN_PAGE_ERROR_WRITE / STATUS_INVALID_PARAMETER") /\
+  reason_string_nm nm (WindowsInPageError, [8; 3221225486]) = Some (zs "EXCEPTION_IN_PAGE_ERROR_EXEC / 0xc000000e") /\
+  reason_string_nm nm (LinuxSigsegv, [1]) = Some (zs "SIGSEGV / SEGV_MAPERR").
+Proof. vm_compute. repeat split. Qed.
+
 (* ==================================================================== round 5, second pass: from the BYTES of a dump *)
 From RM Require Import C02.Model C02.Proofs4.
 From RM Require Import C14.Model C14.Bytes C14.BytesProofs.
